@@ -1,0 +1,20 @@
+//go:build verif
+
+package set
+
+import "sort"
+
+// VerifBuckets (build tag "verif" only) reports the length and capacity of each
+// hash bucket of s, ordered by bucket id. Read-only; used by an external checker.
+func VerifBuckets[T any](s Set[T]) (lens []int, caps []int) {
+	ids := make([]int, 0, len(s.vals))
+	for id := range s.vals {
+		ids = append(ids, id)
+	}
+	sort.Ints(ids)
+	for _, id := range ids {
+		lens = append(lens, len(s.vals[id]))
+		caps = append(caps, cap(s.vals[id]))
+	}
+	return lens, caps
+}
